@@ -2,6 +2,7 @@
    Property theorems only; proofs are in Proofs/ErrorFlowProofs.v. *)
 From HX Require Import Model.Value Model.Operators Model.Logic Model.ErrorFlow Proofs.ErrorFlowProofs.
 From HX Require Model.Lexer Model.Interp Proofs.LRfull Proofs.ErrorLiteral.
+From HX Require Import Model.PredShape Model.TrapShape Gen.TrapFns Proofs.TrapSource.
 Open Scope Z_scope.
 
 (* an error operand of an arithmetic, comparison or concatenation operator is the result, the left one first *)
@@ -51,6 +52,19 @@ Theorem C08_ERROR_TYPE :
   error_type (VErr ENA) = VInt 7 /\ error_type (VErr EDATA) = VInt 8 /\
   (forall v, is_err v = false -> error_type v = VErr ENA).
 Proof. exact ERROR_TYPE_table. Qed.
+(* the source terms of IFERROR / IFNA and the ERROR.TYPE table (Gen/TrapFns.v, regenerated from logic.py and
+   information.py on every run) ARE the bodies the theorems above speak about (Proofs/TrapSource.v) *)
+Theorem C08_source_traps_are_the_model : forall args,
+  run_trap gen_IFERROR args = body FIFERROR args /\ run_trap gen_IFNA args = body FIFNA args.
+Proof. intros args. exact (conj (source_IFERROR_is_model args) (source_IFNA_is_model args)). Qed.
+Theorem C08_source_ERROR_TYPE_is_the_model : forall v,
+  run_table gen_ERROR_TYPE_table gen_ERROR_TYPE_default v = error_type v /\ keys_distinct gen_ERROR_TYPE_table = true.
+Proof. exact source_ERROR_TYPE_is_model. Qed.
+Theorem C08_source_traps_understood : trap_gen_ok = true.
+Proof. exact source_traps_understood. Qed.
+Theorem C08_source_IFERROR_iff : forall v w, run_trap gen_IFERROR [v; w] = Ret (if is_err v then w else v).
+Proof. intros v w. rewrite source_IFERROR_is_model. reflexivity. Qed.
+
 (* errors raised inside function bodies become values at the call boundary *)
 Theorem C08_raising_function : forall e args vs, Forall2 (fun a v => eval a = Ret v) args vs ->
   eval (ECall (FRAISE e) args) = Ret (VErr e).
@@ -96,6 +110,8 @@ Print Assumptions C08_error_literal_reports.
 Print Assumptions C08_produced_errors_are_values.
 Print Assumptions C08_traps_observe.
 Print Assumptions C08_IFERROR_iff.
+Print Assumptions C08_source_traps_are_the_model.
+Print Assumptions C08_source_ERROR_TYPE_is_the_model.
 Print Assumptions C08_aggregate_error.
 Print Assumptions C08_raised_error_not_trapped.
 Print Assumptions C08_raised_error_is_reported.
